@@ -245,7 +245,7 @@ func runC06(c *eng.Ctx, tier string) {
 
 	// R-C06-5 version argument
 	for _, m := range d.methods {
-		eng.SetRoot(m.Fn) // helpers shared by several operations are resolved at their call site in this one
+		eng.SetRoot(m.Fn)                                   // helpers shared by several operations are resolved at their call site in this one
 		if m.Version == nil || m.Name == "GetConditional" { // tabled: oldVersion is the caller's cached version, not the version accessed
 			continue
 		}
@@ -503,6 +503,43 @@ func c06Writer(c *eng.Ctx) {
 		c.Undecided("R-C06-6", nil, 0, "audit.Writer.{WriteEntries,Sync}, audit.New", "anchors do not resolve")
 		return
 	}
+	// the function that syncs the sink: Writer.Sync itself, or a helper
+	// taking the sink that Sync hands l.w to (impl, sinkP)
+	impl, sinkP := syn, ssa.Value(nil)
+	isWriterSink := func(recv ssa.Value, v ssa.Value) bool {
+		fr, base, isF := eng.LoadedField(v)
+		return isF && fr.Is("audit", "Writer", auditField(p, "w")) && eng.Origin(base) == recv
+	}
+	for _, r := range eng.Returns(syn) {
+		rv := eng.RetVals(r)
+		if call, _ := eng.TupleCall(rv[0]); call != nil && len(eng.Returns(syn)) == 1 {
+			if h := eng.Callee(&call.Call); h != nil && eng.IsHelper(syn, h) && !call.Call.IsInvoke() {
+				for i, a := range call.Call.Args {
+					if isWriterSink(syn.Params[0], a) && i < len(h.Params) {
+						impl, sinkP = h, h.Params[i]
+					}
+				}
+			}
+		}
+	}
+	// isSyncOf: call syncs the sink of Writer recv (l.Sync(), or helper(l.w))
+	isSyncOf := func(call *ssa.Call, recv ssa.Value) bool {
+		if call == nil {
+			return false
+		}
+		cal := eng.Callee(&call.Call)
+		if cal == syn {
+			return eng.Origin(call.Call.Args[0]) == recv
+		}
+		if impl != syn && cal == impl {
+			for i, q := range impl.Params {
+				if ssa.Value(q) == sinkP && i < len(call.Call.Args) {
+					return isWriterSink(recv, call.Call.Args[i])
+				}
+			}
+		}
+		return false
+	}
 	// every Encode error is returned
 	nEnc := 0
 	isEncodeLike := map[ssa.Instruction]bool{}
@@ -527,7 +564,7 @@ func c06Writer(c *eng.Ctx) {
 			}
 			// carrying on (another record, or the sync) after a failed Encode
 			if c2, ok := x.(*ssa.Call); ok {
-				if eng.CalleeIs(&c2.Call, "encoding/json", "*Encoder.Encode") || eng.Callee(&c2.Call) == syn || isEncodeLike[c2] {
+				if eng.CalleeIs(&c2.Call, "encoding/json", "*Encoder.Encode") || eng.Callee(&c2.Call) == syn || eng.Callee(&c2.Call) == impl || isEncodeLike[c2] {
 					return true
 				}
 			}
@@ -571,7 +608,7 @@ func c06Writer(c *eng.Ctx) {
 		nEnc++
 		// the encoder is the Writer's own
 		fr, base, isF := eng.LoadedField(call.Call.Args[0])
-		c.Check(isF && fr.Is("audit", "Writer", auditField(p, "enc")) && eng.OriginX(base) == ssa.Value(we.Params[0]), "R-C06-6", fn, in.Pos(), "encoder used by "+eng.CallStr(&call.Call), "the Writer's own encoder", "encoder is "+eng.ValStr(call.Call.Args[0]))
+		c.Check(isF && fr.Is("audit", "Writer", auditField(p, "enc")) && eng.OriginX(base) == eng.OriginX(we.Params[0]), "R-C06-6", fn, in.Pos(), "encoder used by "+eng.CallStr(&call.Call), "the Writer's own encoder", "encoder is "+eng.ValStr(call.Call.Args[0]))
 		propagates(fn, call, eng.CallStr(&call.Call))
 	})
 	if nEnc == 0 {
@@ -584,12 +621,12 @@ func c06Writer(c *eng.Ctx) {
 			continue
 		}
 		call, _ := eng.TupleCall(rv[0])
-		ok := call != nil && eng.Callee(&call.Call) == syn && eng.Origin(call.Call.Args[0]) == we.Params[0]
+		ok := isSyncOf(call, we.Params[0])
 		c.Check(ok, "R-C06-6", we, r.Pos(), eng.InstrStr(r), "success is reported only as the result of l.Sync() (record synced before the caller proceeds)", "returns "+eng.ValStr(rv[0]))
 	}
 	// Sync forwards to the sink's Sync when it has one
 	okSync := false
-	eng.Instrs(syn, func(in ssa.Instruction) {
+	eng.Instrs(impl, func(in ssa.Instruction) {
 		r, ok := in.(*ssa.Return)
 		if !ok {
 			return
@@ -601,7 +638,7 @@ func c06Writer(c *eng.Ctx) {
 		}
 		// receiver: a field of the Writer that New filled with the sink viewed
 		// through an interface having Sync (the assertion hoisted into New) ...
-		if fr, base, isF := eng.LoadedField(call.Call.Value); isF && eng.IsNamed(fr.Owner, "audit", "Writer") && eng.Origin(base) == syn.Params[0] {
+		if fr, base, isF := eng.LoadedField(call.Call.Value); impl == syn && isF && eng.IsNamed(fr.Owner, "audit", "Writer") && eng.Origin(base) == syn.Params[0] {
 			for _, a := range eng.FieldAccesses(nw) {
 				if a.Kind != "store" || a.Field.Name != fr.Name || !eng.IsNamed(a.Field.Owner, "audit", "Writer") {
 					continue
@@ -628,8 +665,7 @@ func c06Writer(c *eng.Ctx) {
 		if !ok {
 			return
 		}
-		fr, base, isF := eng.LoadedField(ta.X)
-		if isF && fr.Is("audit", "Writer", auditField(p, "w")) && eng.Origin(base) == syn.Params[0] {
+		if (impl == syn && isWriterSink(syn.Params[0], ta.X)) || (impl != syn && eng.Origin(ta.X) == sinkP) {
 			iface, _ := ta.AssertedType.Underlying().(*types.Interface)
 			if iface != nil && iface.NumMethods() == 1 && iface.Method(0).Name() == "Sync" {
 				okSync = true
@@ -638,12 +674,12 @@ func c06Writer(c *eng.Ctx) {
 	})
 	c.Check(okSync, "R-C06-6", syn, syn.Pos(), "Writer.Sync forwards to the sink", "returns l.w.(interface{Sync() error}).Sync() when the sink has one", "no such forwarding return found")
 	// ... and never swallows the sink's error: from each sink Sync call, on its error edge no nil return is reachable
-	eng.Instrs(syn, func(in ssa.Instruction) {
+	eng.Instrs(impl, func(in ssa.Instruction) {
 		call, ok := in.(*ssa.Call)
 		if !ok || !call.Call.IsInvoke() || call.Call.Method.Name() != "Sync" {
 			return
 		}
-		hit, path := eng.Search(syn, call, eng.AssumeErr(call, false), nil, func(x ssa.Instruction) bool {
+		hit, path := eng.Search(impl, call, eng.AssumeErr(call, false), nil, func(x ssa.Instruction) bool {
 			r, isR := x.(*ssa.Return)
 			if !isR {
 				return false
@@ -768,7 +804,7 @@ func c06Principal(c *eng.Ctx) {
 	r := f.Params[1]
 	isRemoteAddr := func(v ssa.Value) bool {
 		fr, base, ok := eng.LoadedField(v)
-		return ok && fr.Name == "RemoteAddr" && eng.OriginX(base) == ssa.Value(r)
+		return ok && fr.Name == "RemoteAddr" && eng.OriginX(base) == eng.OriginX(r)
 	}
 	var whois, parse *ssa.Call
 	eng.InstrsDeep(f, func(_ *ssa.Function, in ssa.Instruction) {
@@ -851,7 +887,6 @@ func c06Principal(c *eng.Ctx) {
 	c.Floor("R-C06-8", 5)
 }
 
-
 // auditEntriesOf returns the entries handed to the audit log by call: the
 // variadic arguments of WriteEntries, or the *audit.Entry argument(s) of a
 // wrapper of the package around it.
@@ -869,7 +904,6 @@ func auditEntriesOf(call *ssa.Call, we *ssa.Function) []ssa.Value {
 	}
 	return out
 }
-
 
 // mayBeNotChanged: v is api.ErrValueNotChanged, or the error result of a
 // helper of the operation that can return it.
